@@ -6,6 +6,9 @@
 (*       for the same (type, value), orig = the value that was decomposed / marshalled.                             *)
 (*       The Present actions of Recompose are replayed along h; the memo contract (as in C07) is                    *)
 (*       HistoryFree: res = ref for every call; Inverse: ref ~ orig.                                                 *)
+(*       solo = what the same entry point produces for the same (type, value) in a fresh PROCESS whose only target   *)
+(*       it is (state the library keeps per type outside any Recomposer is invisible to ref): HistoryFree also       *)
+(*       demands res = solo, failure included.                                                                       *)
 (*  ev = "rt": [api, ok, res, orig, m]  one round trip of a C15 shape.  Inverse: res ~ orig.                         *)
 (* ~ is deep equality of the typed projections with nil and empty slices / maps identified (Canon).                 *)
 EXTENDS Recompose, Json, TLCExt
@@ -13,7 +16,7 @@ CONSTANT MaxBad
 Events == ndJsonDeserialize("trace.ndjson")
 N == Len(Events)
 VARIABLE c
-tvars == <<c, reg, hist, outs>>
+tvars == <<c, reg, memo, hist, outs>>
 
 RECURSIVE Canon(_)
 \* a struct held by value in an interface comes back as a pointer to the struct (the recomposer builds values with
@@ -33,13 +36,17 @@ Same(x, y) == Canon(x) = Canon(y)
 
 \* replay the model registry along the history: outcome the model predicts for call i
 RECURSIVE Run(_, _, _)
-Run(r, h, i) == IF i > Len(h) THEN <<>> ELSE LET x == Recomp(r, h[i]) IN <<x.bad>> \o Run(x.r, h, i + 1)
+Run(s, h, i) == IF i > Len(h) THEN <<>> ELSE LET x == Recomp(s, h[i], {}) IN <<x.bad>> \o Run(x.s, h, i + 1)
 
 JudgeHist(e) ==
-  LET pred == Run(EmptyReg, e.h, 1)
+  LET pred == Run(EmptyState, e.h, 1)
       One(i) == LET k == e.calls[i] IN
-        (IF k.ok /\ k.refok /\ Same(k.res, k.ref) THEN <<>>
-         ELSE IF ~k.refok THEN <<>>      \* a fresh recomposer cannot do it either: judged by Inverse below
+        \* (a fresh recomposer that cannot do it either is judged by Inverse below; the outcome in the fresh process must be
+        \* the same outcome, success or failure)
+        (IF /\ (k.refok => (k.ok /\ Same(k.res, k.ref)))
+            /\ k.ok = k.solook
+            /\ (k.ok => Same(k.res, k.solo))
+         THEN <<>>
          ELSE <<[i |-> c, kind |-> "history-dependent", api |-> e.mode, t |-> k.t, pos |-> i, pred |-> pred[i], m |-> k.m]>>)
         \o (IF (k.refok /\ Same(k.ref, k.orig)) \/ CreateRef(k.t) # <<>> THEN <<>>    \* an interface field needs its type registered
             ELSE <<[i |-> c, kind |-> "not-inverse", api |-> e.mode, t |-> k.t, pos |-> i, pred |-> <<>>, m |-> k.refm]>>)
@@ -103,8 +110,8 @@ JudgeRt(e) == IF e.skip THEN <<>> ELSE IF e.hang THEN <<[i |-> c, kind |-> "hang
               \o (IF e.ok /\ e.alias /\ ~e.oalias
                   THEN <<[i |-> c, kind |-> "aliased", api |-> e.api, t |-> "shape", pos |-> 0, pred |-> <<>>, m |-> ""]>> ELSE <<>>)
 
-TraceInit == c = 1 /\ reg = EmptyReg /\ hist = <<>> /\ outs = <<>> /\ TLCSet(1, <<>>) /\ TLCSet(2, 0) /\ TLCSet(3, 0)
-TStep == /\ c <= N /\ c' = c + 1 /\ UNCHANGED <<reg, hist, outs>>
+TraceInit == c = 1 /\ reg = EmptyReg /\ memo = EmptyMemo /\ hist = <<>> /\ outs = <<>> /\ TLCSet(1, <<>>) /\ TLCSet(2, 0) /\ TLCSet(3, 0)
+TStep == /\ c <= N /\ c' = c + 1 /\ UNCHANGED <<reg, memo, hist, outs>>
          /\ LET e == Events[c]
                 j == IF e.ev = "hist" THEN JudgeHist(e) ELSE JudgeRt(e) IN
             /\ (j = <<>> \/ Len(TLCGet(1)) >= MaxBad \/ TLCSet(1, TLCGet(1) \o j))
